@@ -13,6 +13,12 @@ Pipeline:
         by Apalache (SMT integers) in parallel chunks against the same rules.
   (iii) outside the box: targeted witnesses of F5 (int64 wrap in InboundFee.CalcFee) and F5b (uint32 wrap
         of heightNow + delta), judged by Apalache one by one; a disagreement is reported under its own key.
+  (iv)  switch level (SwitchPolicy.tla, keys "switch:..."): which of the parallel links to the next peer gets the
+        HTLC (Switch.handlePacketAdd) and how an advertised policy reaches the links
+        (Switch.UpdateForwardingPolicies, AddLink/RemoveLink, pending links).  TLC checks the model, generates
+        schedules (SwitchPolicyGen), they are replayed on ONE real Switch with real channelLinks
+        (harness/htlcswitch/c09_switch_test.go) and TLC validates the recorded behaviours (SwitchPolicyTrace):
+        handed to link L only if the check against the policy ADVERTISED for L's channel accepts.
 """
 import copy
 import json
@@ -306,8 +312,12 @@ def gen_lattice(ck, thorough):
     return p, n
 
 
+# both executors are always injected together: the second `go test` finds the package already compiled
+HARNESS = ["htlcswitch/c09_test.go", "htlcswitch/c09_switch_test.go"]
+
+
 def execute(ck, cases_path, name="exec", extra_overlay=None):
-    res = ck.go_test("./htlcswitch/", "^TestVerifC09ForwardPolicy$", ["htlcswitch/c09_test.go"],
+    res = ck.go_test("./htlcswitch/", "^TestVerifC09ForwardPolicy$", HARNESS,
                      env={"VERIF_CASES": cases_path}, name=name, timeout=1500,
                      extra_overlay=extra_overlay or EXTRA_OVERLAY)
     trace = os.path.join(res["dir"], "trace.ndjson")
@@ -364,16 +374,21 @@ def run(ck):
     thorough = ck.tier == "thorough"
     par = int(os.environ.get("VERIF_C09_PAR", "0")) or min(16, core.NCPU)
     if getattr(ck, "replay", None):
+        if os.path.isdir(ck.replay) and os.path.exists(os.path.join(ck.replay, "schedule_switch.ndjson")):
+            return switch_replay(ck)
         return replay(ck, par)
+    if os.environ.get("VERIF_C09_PARTS") == "switch":       # development: the switch-level part alone
+        return switch_part(ck, thorough)
 
     # ---- (i) model checking (TLC + Apalache symbolic), lattice generation and execution, side by side
     sdir = ck.scratch("apalache_sym")
     with ThreadPoolExecutor(max_workers=8) as ex:
         fut_wits = ex.submit(sym_part, ck, sdir)
         fut_chain = ex.submit(lattice_chain, ck, thorough, fut_wits)
+        fut_switch = ex.submit(switch_part, ck, thorough)
         futs = [ex.submit(j) for j in mc_jobs(ck, thorough)]
         errs = []
-        for f in [fut_wits, fut_chain] + futs:
+        for f in [fut_wits, fut_chain, fut_switch] + futs:
             try:
                 f.result()
             except Inconclusive as e:
@@ -459,7 +474,7 @@ def run(ck):
 
     ck.cov["samples"] += [dict(kind="lattice", first=_head(lat_trace, 2)),
                           dict(kind="box", first=boxrecs[:2]), dict(kind="witness", first=witrecs[:1])]
-    ck.cov["rule"] = ("lattice: TLC-enumerated boundary lattice (every comparison's -1/0/+1 neighbourhood crossed, small "
+    ck.cov["rule"] = (ck.cov.get("rule_switch", "") + "lattice: TLC-enumerated boundary lattice (every comparison's -1/0/+1 neighbourhood crossed, small "
                       "integers), each case executed through CheckHtlcForward and CheckHtlcTransit of a real channelLink "
                       "and judged by TLC; box: seeded boundary-biased 64-bit cases judged by Apalache; distinct = distinct "
                       "input tuples; every case is a full decision (non-trivial by construction: inputs sit on or next to a threshold)")
@@ -471,7 +486,263 @@ def run(ck):
                        "heights/expiries/deltas < 2^31; outside it only the listed / Apalache-generated F5 and F5b witnesses are judged",
                        "max_htlc = 0 is read as 'no maximum' (lnd's encoding)",
                        "no AuxTrafficShaper (custom channels) configured: bandwidth = channel.AvailableBalance()",
-                       "Switch.handlePacketAdd's choice among links is not part of this check (C08)"]
+                       "switch level: one incoming (mock) link, channels without option-scid-alias / zero-conf, fixed height; "
+                       "the remote peers are silent after update_add_htlc (wire tap), so handed-over HTLCs stay pending; "
+                       "dust-exposure rejections of the switch are outside the explored amounts"]
+
+
+# --------------------------------------------------------------------------- (iv) switch level
+SW_CHANS = ["c1", "c2", "c3", "c4"]
+SW_PROPERTY_INVS = ["PolicyPropagated", "HandedOnlyIfAdvertisedAccepts", "FailedOnlyIfNoLinkAccepts",
+                    "FailureNamesViolatedRule", "UnknownNextPeerOnlyIf", "DecisionAsAdvertised"]
+SW_GUARDS = [("shifted", "an HTLC is handed to a parallel channel, not the requested one"),
+             ("policyFail", "a forward fails with a policy failure of the requested channel"),
+             ("staleChannel", "a policy is advertised for a channel without a live link"),
+             ("bwFail", "a forward fails for lack of bandwidth on every parallel channel"),
+             ("skipIneligible", "an HTLC is handed over although the requested link is not eligible"),
+             ("nodeHop", "a node-addressed (blinded) next hop is handed to a link")]
+SW_BAD = [("stopAtMissing", "UpdateForwardingPolicies that stops at the first channel without a live link"),
+          ("honourRequested", "handPacketAdd that prefers the requested channel among ALL candidates")]
+
+
+def _is_reset(r):
+    return r.get("a") == "Reset"
+
+
+def switch_mc(ck, thorough):
+    x = ["-noGenerateSpecTE"]
+    ck.model_check(SPEC, "SwitchPolicyMC", "SwitchPolicyMC%s.cfg" % ("_thorough" if thorough else ""),
+                   "switch level: every behaviour of <= 3 steps from every link registration, 4 channels "
+                   "(2 parallel + 1 other peer + 1 pending), %s palettes" % ("larger" if thorough else "small"),
+                   name="mc_switch", timeout=1700, workers=4, extra=x)
+    if thorough:
+        ck.model_check(SPEC, "SwitchPolicyMC", "SwitchPolicyMC.cfg",
+                       "switch level: every behaviour of <= 4 steps, small palettes", name="mc_switch_deep", timeout=1700,
+                       workers=4, constants={"MaxSteps": 4}, extra=x)
+    for g, what in SW_GUARDS:
+        r = ck.model_check(SPEC, "SwitchPolicyMC", "SwitchPolicyMC_guard.cfg", "switch level, vacuity guard: " + what,
+                           must_hold=False, name="mc_switch_guard_" + g, timeout=600, workers=2,
+                           constants={"Guard": '"%s"' % g}, extra=x)
+        if r.violation != "invariant GuardInv":
+            raise Inconclusive("vacuity: SwitchPolicy never reaches '%s' (%s)" % (what, r.violation))
+    for v, what in SW_BAD:
+        r = ck.model_check(SPEC, "SwitchPolicyMC", "SwitchPolicyMC_bad.cfg", "switch level, wrong variant must break the property: " + what,
+                           must_hold=False, name="mc_switch_bad_" + v, timeout=600, workers=2,
+                           constants={"Variant": '"%s"' % v}, extra=x)
+        if (r.violation or "").replace("invariant ", "") not in SW_PROPERTY_INVS:
+            raise Inconclusive("the invariants of SwitchPolicy do not see the wrong variant '%s' (%s)" % (v, r.violation))
+
+
+def switch_execute(ck, sched_dir, name="exec_switch"):
+    res = ck.go_test("./htlcswitch/", "^TestVerifC09Switch$", HARNESS, env={"VERIF_SWPOL": sched_dir, "VERIF_PAR": 4},
+                     name=name, timeout=900, extra_overlay=EXTRA_OVERLAY)
+    trace = os.path.join(res["dir"], "trace_switch.ndjson")
+    if res["rc"] != 0 or not os.path.exists(trace):
+        raise Inconclusive("switch-level executor failed:\n" + res["out"][-3000:])
+    return trace
+
+
+def switch_validate(ck, trace, name):
+    return ck.validate(SPEC, "SwitchPolicyTrace", "SwitchPolicyTrace.cfg", trace, name=name, timeout=900)
+
+
+def switch_report(ck, recs, v, seen=()):
+    """A rejected behaviour of the real switch: cut it out, name the clause and the step.  Returns the key."""
+    inv = (v["invariant"] or "").replace("invariant ", "")
+    ln = v["line"] or 1
+    a, b = core.slice_trace(recs, ln, _is_reset)
+    one = recs[a:b]
+    bad = recs[min(ln, len(recs)) - 1]
+    key = "switch:%s:%s" % (inv, bad.get("a"))
+    if key in seen:
+        return key
+    if inv == "EnvAsModel":
+        raise Inconclusive("switch-level fixture did not behave as the model assumes (link eligibility / height) at step %d "
+                           "of %s: %s" % (ln - a, bad.get("plan"), json.dumps(bad)[:1500]))
+    tp = os.path.join(ck.out, "failing_switch_trace.ndjson")
+    core.write_ndjson(tp, one)
+    sp = os.path.join(ck.out, "failing_switch_schedule.ndjson")
+    keys = ("a", "c", "set", "pol", "rt", "rx", "h", "init")
+    core.write_ndjson(sp, [{k: r[k] for k in keys} for r in one])
+    what = {"Fwd": "forward %s via %s/%s -> %s %s %s" % (json.dumps(bad.get("h")), bad.get("rt"), bad.get("rx"), bad.get("res"),
+                                                       bad.get("to"), bad.get("v")),
+            "Upd": "policy update of %s to %s -> links enforce %s" % (
+                [c for c in SW_CHANS if bad.get("set", {}).get(c)], json.dumps(bad.get("pol")), json.dumps(bad.get("enf")))
+            }.get(bad.get("a"), bad.get("a"))
+    n = len([k for k in seen]) + 1
+    tp2, sp2 = tp.replace(".ndjson", "_%d.ndjson" % n), sp.replace(".ndjson", "_%d.ndjson" % n)
+    os.replace(tp, tp2)
+    os.replace(sp, sp2)
+    tp, sp = tp2, sp2
+    ck.violation(key,
+                 "real Switch deviates from spec/ForwardPolicy/SwitchPolicy (%s) at step %d of schedule %s: %s; link state %s"
+                 % (inv, ln - a - 1, bad.get("plan"), what, json.dumps({k: bad.get(k) for k in ("reg", "el", "bw")})),
+                 files={"trace_switch.ndjson": tp, "schedule_switch.ndjson": sp}, text=v["cex"])
+    return key
+
+
+def switch_controls(ck, recs):
+    """Negative controls: ONE recorded field of an accepted behaviour is corrupted - the validator must
+    reject at that line with the clause the corruption breaks."""
+    def live_other_peer(r, c):
+        o = "c3" if c in ("c1", "c2") else "c1"
+        return o
+    muts = [
+        ("to: hand-over moved to a channel of the other peer", "HandedOnlyIfAdvertisedAccepts",
+         lambda r: r["a"] == "Fwd" and r["res"] == "fwd",
+         lambda r: r.update(to=live_other_peer(r, r["to"]))),
+        ("res: a policy failure turned into a hand-over to the requested channel", "HandedOnlyIfAdvertisedAccepts",
+         lambda r: r["a"] == "Fwd" and r["res"] == "fail" and r["v"] != "FailUnknownNextPeer",
+         lambda r: r.update(res="fwd", to=r["rx"], v="ok")),
+        ("enf: base fee of a live link after a policy update + 1", "LinkEnforcesAdvertised",
+         lambda r: r["a"] == "Upd" and any(r["set"][c] and r["reg"][c] == "live" for c in SW_CHANS),
+         lambda r: [r["enf"][c].update(base=r["enf"][c]["base"] + 1) for c in SW_CHANS
+                    if r["set"][c] and r["reg"][c] == "live"][:1]),
+        ("v: FeeInsufficient renamed to ExpiryTooFar", "FailureNamesViolatedRule",
+         lambda r: r["a"] == "Fwd" and r["v"] == "FeeInsufficient" and r["h"]["outExp"] == 140 and r["h"]["inExp"] <= 150,
+         lambda r: r.update(v="ExpiryTooFar")),
+        ("res: a hand-over turned into unknown_next_peer", "FailedOnlyIfNoLinkAccepts",
+         lambda r: r["a"] == "Fwd" and r["res"] == "fwd" and r["rt"] == "chan",
+         lambda r: r.update(res="fail", to="-", v="FailUnknownNextPeer")),
+    ]
+    out = []
+    for k, (mut, expect, pick, corrupt) in enumerate(muts):
+        i = next((j for j, r in enumerate(recs) if pick(r)), None)
+        if i is None:
+            raise Inconclusive("switch-level negative control: no recorded step for '%s'" % mut)
+        a, b = core.slice_trace(recs, i + 1, _is_reset)
+        one = copy.deepcopy(recs[a:b])
+        corrupt(one[i - a])
+        p = os.path.join(ck.out, "control_switch_%d.ndjson" % k)
+        core.write_ndjson(p, one)
+        v = switch_validate(ck, p, "control_switch_%d" % k)
+        inv = (v["invariant"] or "").replace("invariant ", "")
+        if v["ok"]:
+            raise Inconclusive("switch-level negative control accepted (%s): trace validation is not binding" % mut)
+        if v["line"] != i - a + 1 or inv != expect:
+            raise Inconclusive("switch-level negative control '%s' rejected by %s at line %s, expected %s at line %d"
+                               % (mut, inv, v["line"], expect, i - a + 1))
+        out.append(dict(mutation=mut + " (switch trace)", rejected_by=v["invariant"], at_line=v["line"]))
+    ck.cov.setdefault("negative_controls", []).extend(out)
+
+
+def switch_stats(recs):
+    st = dict(behaviours=0, steps=0, forwards=0, handed=0, shifted=0, failed_policy=0, failed_unknown=0,
+              handed_past_ineligible=0, node_hops_handed=0, updates=0, updates_with_linkless_channel=0,
+              updates_reaching_live_link=0, adds=0, removes=0, flushes=0)
+    distinct = set()
+    for r in recs:
+        a = r["a"]
+        if a == "Reset":
+            st["behaviours"] += 1
+            continue
+        st["steps"] += 1
+        if a == "Fwd":
+            st["forwards"] += 1
+            if r["res"] == "fwd":
+                st["handed"] += 1
+                if r["rt"] == "chan" and r["to"] != r["rx"]:
+                    st["shifted"] += 1
+                    if not r["el"].get(r["rx"]):
+                        st["handed_past_ineligible"] += 1
+                if r["rt"] == "node":
+                    st["node_hops_handed"] += 1
+            elif r["v"] == "FailUnknownNextPeer":
+                st["failed_unknown"] += 1
+            else:
+                st["failed_policy"] += 1
+            live = [c for c in SW_CHANS if r["reg"][c] == "live"]
+            if len(live) >= 1:
+                distinct.add(core.sha(json.dumps([a, r["h"], r["rt"], r["rx"], r["reg"], r["el"],
+                                                  {c: r["enf"][c] for c in live}, {c: r["bw"][c] for c in live}],
+                                                 sort_keys=True)))
+        elif a == "Upd":
+            st["updates"] += 1
+            s = [c for c in SW_CHANS if r["set"][c]]
+            if any(r["reg"][c] != "live" for c in s):
+                st["updates_with_linkless_channel"] += 1
+            if any(r["reg"][c] == "live" for c in s):
+                st["updates_reaching_live_link"] += 1
+                distinct.add(core.sha(json.dumps([a, r["set"], r["pol"], r["reg"]], sort_keys=True)))
+        elif a == "Add":
+            st["adds"] += 1
+        elif a == "Remove":
+            st["removes"] += 1
+        else:
+            st["flushes"] += 1
+    return st, len(distinct)
+
+
+def switch_part(ck, thorough):
+    """(iv) model check SwitchPolicy, generate schedules, replay them on the real Switch, validate."""
+    with ThreadPoolExecutor(max_workers=2) as ex:
+        fmc = ex.submit(switch_mc, ck, thorough)
+        files = ck.generate(SPEC, "SwitchPolicyGen", "SwitchPolicyGen.cfg", 900 if thorough else 150, 40,
+                            constants={"MaxLen": 25 if thorough else 19}, name="gen_switch", timeout=1500)
+        trace = switch_execute(ck, os.path.dirname(files[0]))
+        recs = core.read_ndjson(trace)
+        st, distinct = switch_stats(recs)
+        if st["behaviours"] != len(files):
+            raise Inconclusive("switch-level executor recorded %d behaviours for %d schedules" % (st["behaviours"], len(files)))
+        ck.cov["evaluations"] += st["steps"]
+        ck.cov["switch_level"] = st
+        v = switch_validate(ck, trace, "val_switch")
+        if not v["ok"]:
+            # report the rejected behaviour, then look at the others: up to four differently keyed deviations
+            rest, keys = recs, set()
+            for k in range(4):
+                key = switch_report(ck, rest, v, seen=keys)
+                keys.add(key)
+                a, b = core.slice_trace(rest, v["line"] or 1, _is_reset)
+                rest = rest[:a] + rest[b:]
+                if not rest:
+                    break
+                p = os.path.join(ck.out, "trace_switch_rest_%d.ndjson" % k)
+                core.write_ndjson(p, rest)
+                v = switch_validate(ck, p, "val_switch_rest_%d" % k)
+                if v["ok"]:
+                    break
+        else:
+            # vacuity of an ACCEPTED run only (a defective switch may well never shift an HTLC)
+            for k in ("shifted", "failed_policy", "updates_with_linkless_channel", "handed_past_ineligible",
+                      "node_hops_handed", "adds", "removes"):
+                if not st[k]:
+                    raise Inconclusive("vacuity: no '%s' among the executed switch-level steps" % k)
+            ck.cov["traces_validated_against_impl"] += st["behaviours"]
+            ck.cov["distinct_nontrivial"] += distinct
+            switch_controls(ck, recs)
+        fmc.result()
+    ck.cov["samples"].append(dict(kind="switch", first=[r for r in recs if r["a"] == "Fwd" and r["res"] == "fwd"
+                                                           and r["rt"] == "chan" and r["to"] != r["rx"]][:1]))
+    ck.cov["rule_switch"] = ("switch: TLC-simulated behaviours of SwitchPolicy (policy updates of any subset of 4 channels, "
+                             "links added/removed/flushed, HTLCs on the thresholds of the advertised policies, channel- and "
+                             "node-addressed) replayed on a real Switch with real channelLinks, every step validated by TLC; "
+                             "distinct = distinct (link state, policies, bandwidths, HTLC, next hop) of forwards and "
+                             "(registration, batch, policy) of updates that reach a live link; ")
+    ck.cov["rule"] = ck.cov["rule_switch"] + ck.cov.get("rule", "")
+    if "wire tap at the remote peers (update_add_htlc per channel) + failure handed to the incoming mock link" not in ck.cov["trusted_base"]:
+        ck.cov["trusted_base"] = list(ck.cov["trusted_base"]) + [
+            "wire tap at the remote peers (update_add_htlc per channel) + failure handed to the incoming mock link",
+            "executor plays graph + peer: creates a link with the policy last advertised for its channel"]
+
+
+def switch_replay(ck):
+    """--replay <violation dir with schedule_switch.ndjson>: run the schedule again, validate."""
+    d = ck.scratch("replay_sched")
+    shutil.copy(os.path.join(ck.replay, "schedule_switch.ndjson"), os.path.join(d, "b_1.ndjson"))
+    trace = switch_execute(ck, d, name="replay_exec_switch")
+    recs = core.read_ndjson(trace)
+    ck.cov["evaluations"] += len(recs) - 1
+    v = switch_validate(ck, trace, "replay_val_switch")
+    core.log("  replay switch schedule: %s" % ("accepted" if v["ok"] else v["invariant"]))
+    if not v["ok"]:
+        switch_report(ck, recs, v)
+    else:
+        ck.cov["traces_validated_against_impl"] += 1
+    ck.cov["samples"].append(dict(kind="replay-switch", first=recs[:2]))
+    ck.cov["states"] = max(ck.cov["states"], 1)
+    ck.cov["transitions"] = max(ck.cov["transitions"], 1)
+    ck.cov["rule"] = "replay of a stored switch-level schedule"
 
 
 def _head(path, n):
